@@ -102,16 +102,18 @@ func (t *tcpHandler) handleConn(connSt *connInfo, pkg []byte) {
 func (t *tcpHandler) Handle() error {
 	cfg := t.config
 	for {
-		if atomic.LoadInt32(&t.server.isClosed) == 1 {
-			TLOG.Errorf("Close accept %s %d", t.config.Address, os.Getpid())
-			atomic.StoreInt32(&t.isListenClosed, 1)
-			break
-		}
 		if cfg.AcceptTimeout > 0 {
 			// set accept timeout
 			if err := t.tcpListener.SetDeadline(time.Now().Add(cfg.AcceptTimeout)); err != nil {
 				TLOG.Errorf("SetDeadline error: %v", err)
 			}
+		}
+		// (checked after the deadline has been set: a shutdown sets isClosed first and then wakes
+		// the listener with a deadline of "now", which setting the accept timeout must not undo)
+		if atomic.LoadInt32(&t.server.isClosed) == 1 {
+			TLOG.Errorf("Close accept %s %d", t.config.Address, os.Getpid())
+			atomic.StoreInt32(&t.isListenClosed, 1)
+			break
 		}
 		conn, err := t.listener.Accept()
 		if err != nil {
